@@ -639,3 +639,45 @@ Definition probe_run (st : pstate) (sched : list pact) : pstate := fold_left pro
 Definition in_flight (st : pstate) : nat :=
   length (filter (fun q => match q with PLeader _ => true | _ => false end) (ps_reqs st)).
 Definition probe_init (n : nat) : pstate := mk_pstate FExpired None [] (repeat PStart n) 0.
+
+(* ================================================================== *)
+(* The wrapper in front of the cache (dns64.ResponseWriter.WriteMsg): a
+   SERVFAIL for an AAAA question makes it send a corresponding A query, unless
+   the response is a cached failure (ResponseMeta marker set by
+   Cache.handleFailureHit, or EDE 13) or a marked request-local failure. *)
+Inductive failure_source := SrcFailureCache | SrcSharedFailure | SrcRequestLocal.
+Definition wrapper_follow_up (src : failure_source) : bool :=
+  match src with SrcSharedFailure => true | SrcFailureCache | SrcRequestLocal => false end.
+(* outgoing queries caused by one client query: (corresponding A lookups, downstream calls) *)
+Definition wrapper_traffic (src : failure_source) : Z * Z :=
+  match src with
+  | SrcFailureCache => (0, 0)
+  | SrcSharedFailure => (1, 1)
+  | SrcRequestLocal => (0, 1)
+  end.
+
+(* ================================================================== *)
+(* The wire fast path's gate for cached failures (Cache.serveCompositeFromWire,
+   denial_proof_witness.go).  The Msg ladder consults aggressive denial (RFC
+   8198) BEFORE failure state; the byte path evaluates nothing, so it may
+   answer a failure only while the record-time proof that denial missed — the
+   miss witness: which denial-zone snapshots lay on the name's path — still
+   describes the denial index.  Denial index: zone -> snapshot stamp (one class). *)
+Definition denial_index := list (name * N).
+Fixpoint snapshot_of (idx : denial_index) (z : name) : option N :=
+  match idx with
+  | [] => None
+  | (z', id) :: r => if name_eqb z' z then Some id else snapshot_of r z
+  end.
+(* denialProofCache.missWitness: the snapshots on the path, name first *)
+Definition miss_witness (idx : denial_index) (n : name) : list (name * N) :=
+  flat_map (fun z => match snapshot_of idx z with Some id => [(z, id)] | None => [] end) (suffixes (canon_name n)).
+(* missWitnessHoldsWire: every zone on the path that has a snapshot NOW is in the witness with that very snapshot *)
+Definition witness_holds (idx : denial_index) (n : name) (w : list (name * N)) : bool :=
+  forallb (fun z => match snapshot_of idx z with
+                    | None => true
+                    | Some id => existsb (fun p => name_eqb (fst p) z && (snd p =? id)%N) w
+                    end) (suffixes (canon_name n)).
+(* serveCompositeFromWire's condition; denial_impossible = Store.sharedDenialImpossible *)
+Definition wire_gate (cd kind_question denial_impossible holds : bool) : bool :=
+  cd || ((kind_question || denial_impossible) && (denial_impossible || holds)).
